@@ -313,6 +313,74 @@ pub fn bit_tree(total_bits: usize, always_guard: bool) -> Vec<((u64, Vec<TB>), b
     })
 }
 
+/// pumped frames: every one of the 2048 frames repeated `reps` times on one decoder (bit-serial), each repetition
+/// checked against R-FRAME; with `with_clear` a partial copy of the frame and a clear() precede each repetition.
+/// Returns (bit positions checked, violations as (frame, repetition, bit index, expected, observed)).
+pub fn pump_frames(reps: usize, with_clear: bool) -> (u64, Vec<(u16, usize, usize, String, String)>) {
+    let results = par_chunks(2048, |w| {
+        let w = w as u16;
+        let mut n = 0u64;
+        let mut bads = vec![];
+        let mut d = Ps2Decoder::new();
+        'outer: for rep in 0..reps {
+            if with_clear {
+                let k = 1 + (rep % 10);
+                let r = catch_unwind(AssertUnwindSafe(|| {
+                    for i in 0..k {
+                        let _ = d.add_bit((w >> i) & 1 != 0);
+                    }
+                    d.clear();
+                }));
+                if r.is_err() {
+                    bads.push((w, rep, 0, "no panic".to_string(), "PANIC".to_string()));
+                    break 'outer;
+                }
+            }
+            for i in 0..11 {
+                let b = (w >> i) & 1 != 0;
+                let r = catch_unwind(AssertUnwindSafe(|| d.add_bit(b)));
+                n += 1;
+                let want = if i < 10 { Ok(None) } else { r_frame(w).map(Some) };
+                let ok = matches!(&r, Ok(x) if *x == want);
+                if !ok {
+                    let obs = match &r {
+                        Ok(x) => fmt_optbyte(x),
+                        Err(_) => "PANIC".to_string(),
+                    };
+                    bads.push((w, rep, i, fmt_optbyte(&want), obs));
+                    break 'outer;
+                }
+            }
+        }
+        (n, bads)
+    });
+    let mut total = 0;
+    let mut out = vec![];
+    for (n, b) in results {
+        total += n;
+        out.extend(b);
+    }
+    (total, out)
+}
+
+pub fn pump_frame_ops(w: u16, rep: usize, upto_bit: usize, with_clear: bool) -> Vec<Op> {
+    let mut ops = vec![];
+    for r in 0..=rep {
+        if with_clear {
+            let k = 1 + (r % 10);
+            for i in 0..k {
+                ops.push(Op::Bit((w >> i) & 1 != 0));
+            }
+            ops.push(Op::Clear);
+        }
+        let upto = if r == rep { upto_bit + 1 } else { 11 };
+        for i in 0..upto {
+            ops.push(Op::Bit((w >> i) & 1 != 0));
+        }
+    }
+    ops
+}
+
 // ---- C06 --------------------------------------------------------------------------------------
 
 #[derive(Clone, Debug, PartialEq)]
@@ -404,7 +472,7 @@ pub fn c06(ctx: &mut Ctx) -> (u64, String) {
     ctx.assume("state identity of Ps2Decoder = derived PartialEq over all fields (hook H3); the two-/three-frame stream trees and the clear sweep need no hook");
     // (A) closed BFS of real decoder x shadow frame
     let sys = Arc::new(FrameSys::new());
-    let (g, sr, errs) = explore_both(sys.clone(), true, 400_000);
+    let (g, sr, errs) = explore_both(sys.clone(), true, 1_200_000);
     for e in errs {
         ctx.machinery(&format!("frame bfs: {}", e));
     }
@@ -461,7 +529,7 @@ pub fn c06(ctx: &mut Ctx) -> (u64, String) {
     }
     let shadows: std::collections::BTreeSet<(u16, u8)> = g.states.iter().map(|s| (s.1, s.2)).collect();
     if g.capped {
-        ctx.cap_hit("frame bfs", 400_000);
+        ctx.cap_hit("frame bfs", 1_200_000);
     } else {
         ctx.expect(shadows.len() == 2047, &format!("all 2047 partial-frame prefixes visited on the reference side (saw {})", shadows.len()));
     }
@@ -574,6 +642,22 @@ pub fn c06(ctx: &mut Ctx) -> (u64, String) {
     ctx.evaluations += total;
     ctx.traces_validated += total;
     ctx.part("sweep:clear-from-every-prefix", json!({"engine": "B (hook-free)", "partial_prefixes": 2047, "frames_after_clear": 2048, "bit_positions_checked": total}));
+    // (D) pumped frames: each of the 2048 frames 300 times on one decoder, without and with partial-frame+clear between
+    for with_clear in [false, true] {
+        let (n, bads) = pump_frames(300, with_clear);
+        let nb = bads.len();
+        for (w, rep, bit, want, got) in bads.into_iter().take(12) {
+            let ops = pump_frame_ops(w, rep, bit, with_clear);
+            ctx.violation(
+                &format!("ps2/pumped{}/frame:0x{:03X}", if with_clear { "-with-clear" } else { "" }, w),
+                &format!("frame 0x{:03X} shifted in repeatedly{}: in repetition {} bit {} must give {} but gives {}", w, if with_clear { " (a partial copy and clear() before each)" } else { "" }, rep + 1, bit + 1, want, got),
+                Replay::one("ps2", ops, &want, Some(got)),
+            );
+        }
+        ctx.evaluations += n;
+        ctx.traces_validated += n;
+        ctx.part(if with_clear { "pump:frames with partial frame + clear between" } else { "pump:frames" }, json!({"engine": "B pumped streams", "frames": 2048, "repetitions": 300, "bit_positions_checked": n, "violations_recorded": nb}));
+    }
     ctx.sample(json!({"bits": "0 10000000 0 1", "reference": "10 x Ok(None), then Ok(Some(0x01))"}));
     ctx.sample(json!({"history": "corrupted frame 0x403 (bad start) then valid frame 0x402", "reference": "Err(BadStartBit) at bit 11, Ok(Some(0x01)) at bit 22"}));
     ctx.sample(json!({"history": "5 bits 10110, clear(), frame 0x402", "reference": "Ok(Some(0x01)) at the 11th bit after clear"}));
